@@ -319,9 +319,14 @@ def run_c12(pid):
                 add("cue", "skeleton", text=text, total=588 * 10 ** 6 + (0 if cdda else 1))
     # index numbers up to 255 and beyond in one track, CD-DA and not
     for cdda in (True, False):
-        for n in (99, 100, 101, 254, 255, 256, 257):
-            lines = ["TRACK 01 AUDIO"] + ["INDEX %02d %s" % (i, mmssff(i) if cdda else str(i * 3)) for i in range(n)]
-            add("cue", "many-indices", text="\n".join(lines) + "\n", total=588 * 10 ** 6 + (0 if cdda else 1))
+        for start in (0, 1):
+            for n in (99, 100, 101, 254, 255, 256, 257):
+                lines = ["TRACK 01 AUDIO"] + ["INDEX %02d %s" % (i, mmssff(i - start) if cdda else str((i - start) * 3)) for i in range(start, start + n)]
+                add("cue", "many-indices", text="\n".join(lines) + "\n", total=588 * 10 ** 6 + (0 if cdda else 1))
+                # a full run followed by one more index line with an arbitrary (also out-of-sequence) number
+                for extra in (0, 1, 128, 255):
+                    add("cue", "many-indices", text="\n".join(lines + ["INDEX %02d %s" % (extra, mmssff(n + 1) if cdda else str((n + 1) * 3))]) + "\n",
+                        total=588 * 10 ** 6 + (0 if cdda else 1))
         lines = []
         for k in range(1, 258):
             lines += ["TRACK %d AUDIO" % k, "INDEX 01 %s" % (mmssff(k - 1) if cdda else str((k - 1) * 5))]
